@@ -47,7 +47,7 @@ def render_spec(E):
     if 'doc_route_on_type' in E:
         a.append('    "Returned by :route:`r3`."')
     a += ['    t1', '    t2 Int32', '']
-    b = ['namespace nsb', '', 'struct T1', '    z Int32', '', ('route q1(Void, List(T1)?, Void)' if 'io_wrapped' in E else 'route q1(T1, Void, Void)'), '']
+    b = ['namespace nsb', '', 'struct T1', '    z Int32', '', ('route r3(Void, List(T1)?, Void)' if 'io_wrapped' in E else 'route r3(T1, Void, Void)'), '']
     return [('nsa.stone', '\n'.join(a) + '\n'), ('nsb.stone', '\n'.join(b) + '\n')]
 
 
@@ -57,7 +57,8 @@ def whitelist_arg(routes, types):
         if r == '*nsa':
             rw['nsa'] = ['*']
         else:
-            rw.setdefault('nsb' if r == 'q1' else 'nsa', []).append(r)
+            # the route q1 of the model is WRITTEN nsb.r3: same name and version as nsa.r3 (names are per namespace)
+            rw.setdefault('nsb' if r == 'q1' else 'nsa', []).append('r3' if r == 'q1' else r)
     for t in types:
         dw.setdefault('nsb' if t == 'T1' else 'nsa', []).append(t)
     return {'route_whitelist': rw, 'datatype_whitelist': dw}
@@ -115,7 +116,7 @@ class WhitelistJudge(Judge):
             self.violation('exc_' + type(e).__name__, 'whitelisting raised %s: %s' % (type(e).__name__, e), ctx)
             return
         got_types = sorted(d.name for ns in api.namespaces.values() for d in ns.data_types)
-        got_routes = sorted(r.name for ns in api.namespaces.values() for r in ns.routes)
+        got_routes = sorted(('q1' if (ns.name, r.name) == ('nsb', 'r3') else r.name) for ns in api.namespaces.values() for r in ns.routes)
         exp_types, exp_routes = sorted(seq(obj['ret_types'])), sorted(seq(obj['ret_routes']))
         if self.judged % 1499 == 1:
             self.sample({'edges': E, 'whitelist': wl, 'retained_types': got_types, 'retained_routes': got_routes})
